@@ -136,12 +136,7 @@ func (c *ctx) roundTrip(us []*universe.UStruct, perType int) {
 	var ks []*kept
 	for _, u := range us {
 		for i := 0; i < perType; i++ {
-			p := c.newValue(u, g)
-			b := c.h.opEnc(u, p, encOpt{bufLen: -1})
-			if b == nil {
-				continue
-			}
-			_, _, k := c.h.opDec(u, b, fresh(u), true)
+			k := c.rtOne(u, c.newValue(u, g), fresh(u))
 			if k != nil {
 				ks = append(ks, k)
 			}
@@ -152,6 +147,26 @@ func (c *ctx) roundTrip(us []*universe.UStruct, perType int) {
 		}
 	}
 	c.h.checkKept(ks)
+}
+
+// rtOne: encode p, decode into d, and emit the whole round trip as one `rt` line that the driver
+// checks against the normal form of C01 (Norm.lean), besides the `enc` and `dec` lines checked
+// against the encoder and decoder models
+func (c *ctx) rtOne(u *universe.UStruct, p, d reflect.Value) *kept {
+	vs := showValue(p.Elem())
+	b := c.h.opEnc(u, p, encOpt{bufLen: -1})
+	if b == nil {
+		return nil
+	}
+	before := showValue(d.Elem())
+	ok, n, k := c.h.opDec(u, b, d, true)
+	if ok && k != nil {
+		c.h.emit(fmt.Sprintf("rt %d %s %s -> ok %d %s", u.Sid, vs, before, n, k.shown))
+	} else {
+		c.h.emit(fmt.Sprintf("rt %d %s %s -> fail", u.Sid, vs, before))
+	}
+	c.h.stats["rt"]++
+	return k
 }
 
 // ---- messages for decode-side properties ----
